@@ -105,6 +105,11 @@ def structure(ctx):
     leaves = [n for n in _walk(loop.body)
               if isinstance(n, (ast.Continue, ast.Break, ast.Return))]
     y_stmt = enclosing_stmt(ys[0]) if ys else None
+    if len(ys) == 1 and y_stmt in loop.body:
+        # ending the round once the element was offered skips nothing
+        after = loop.body[loop.body.index(y_stmt) + 1:]
+        leaves = [n for n in leaves if not (isinstance(n, ast.Continue) and
+                                            any(is_within(n, a) for a in after))]
     if len(ys) == 1 and y_stmt in loop.body and not leaves:
         ctx.ok("C05.R1", it, y_stmt, "exactly one yield per source element")
     else:
@@ -251,17 +256,27 @@ def structure(ctx):
     # counter bookkeeping
     pb = parent_block(d0.stmt)
     blk = pb[0] if pb else []
-    dec = [s for s in blk if isinstance(s, ast.AugAssign) and
-           isinstance(s.op, ast.Sub) and text(s.value) == "1"]
-    inc = [s for s in loop.body if isinstance(s, ast.AugAssign) and
-           isinstance(s.op, ast.Add) and text(s.value) == "1"]
-    if len(dec) == 1 and len(inc) == 1 and text(dec[0].target) == text(inc[0].target):
-        ctx.ok("C05.R3", it, dec[0], "position counter decremented on removal, "
-               "incremented once per iteration")
+    # the position handed to the insertion is carried from round to round:
+    # +1 for an element that stays, 0 for one that is taken out again
+    posv = None
+    for c in pat.calls(_walk(loop.body)):
+        a = pat.kwarg(c, "pos")
+        if isinstance(c.func, ast.Attribute) and c.func.attr == "_create_payload" and \
+                isinstance(a, ast.Name):
+            posv = a.id
+    y_st = enclosing_stmt(ys[0]) if ys else None
+    n_del = pat.net_after(d0.stmt, posv) if posv else None
+    n_all = pat.net_after(y_st, posv) if posv and y_st is not None else None
+    if n_del == {0} and n_all == {0, 1}:
+        ctx.ok("C05.R3", it, d0.stmt, "position counter `%s`: +1 per element kept, "
+               "unchanged for an element removed again" % posv,
+               text_="populate position counter")
     else:
         ctx.bad("C05.R3", it, d0.stmt, "the destination position counter is "
-                "not decremented in the removal branch and incremented exactly "
-                "once per iteration: later insertions use a drifting position",
+                "not taken back in the removal branch and incremented exactly "
+                "once per iteration (net change after a removal %s, after the "
+                "offer %s): later insertions use a drifting position"
+                % (sorted(map(str, n_del or ["?"])), sorted(map(str, n_all or ["?"]))),
                 text_="populate position counter")
     # rank pop under the owner guard: C02.R3 (reported there); presence here
     from ..sites import rank_pops
